@@ -130,7 +130,9 @@ func genDefinition(t *rapid.T) defGen {
 		case "unknown-op":
 			p.ValuePredicate.Op = svc.Op(rapid.SampledFrom([]uint64{6, 100, 1 << 63}).Draw(t, "uop"))
 		case "offset-too-big":
-			p.LogValueRef.Offset = rapid.SampledFrom([]uint64{1 << 32, 1 << 40, ^uint64(0)}).Draw(t, "bo")
+			// beyond the documented bound, including the values around which the byte position (offset-4)*32
+			// leaves the int64 / uint64 range
+			p.LogValueRef.Offset = rapid.SampledFrom([]uint64{1 << 32, 1<<32 + 4, 1 << 40, 1<<58 + 3, 1<<58 + 4, 1<<58 + 5, 1<<59 - 1, 1 << 59, 1<<59 + 4, 1<<62 + 4, 1 << 63, 1<<63 + 4, ^uint64(0)}).Draw(t, "bo")
 		case "dup-topic-eq":
 			eq := svc.LogPredicate{LogValueRef: svc.LogValueRef{Offset: 1}, ValuePredicate: svc.ValuePredicate{Op: svc.BytesEq, IntArgs: []*big.Int{}, ByteArgs: [][]byte{make([]byte, 32)}}}
 			g.D.LogPredicates = append(g.D.LogPredicates, eq, eq)
@@ -577,7 +579,7 @@ type c17Case struct {
 
 func TestC17_DefinitionAndMatch(t *testing.T) {
 	rec := recorder("C17")
-	rec.AddRule("(a) generated definitions (every operator, topic offsets 0-3, static and dynamic data references, offsets up to 2^32-1 incl. k*2^w+4+j (w=27..31: positions that wrap onto existing words in narrow arithmetic), 0-4 predicates (one definition in eight: 2-4 topic BytesEq pins in a generated order), integers 0/1/2^256-1/2^256/random, byte arguments of length 0/1/31/32/33/64/70; invalid variants labelled) crossed with logs built relative to the definition (0-4 topics, head/tail ABI layout aimed at satisfying or just missing each predicate, then hostile edits: truncation around word boundaries, offset/length words set to n-33..n+1, 2^16, 2^31, 2^32, 2^62, 2^63, 2^64-1). Oracles: Validate ok => Unmarshal(Marshal(d)) == d; Validate ok => ToFilterQuery succeeds; Match never panics, allocates <= 64 KiB + 4*(|data|+|args|), equals the reference semantics of docs/event.md whenever every reference lies inside the log; Match => log passes an independent eth_getLogs filter evaluation of ToFilterQuery. non-trivial = dynamic reference pointing outside the data, topic BytesEq whose argument is not 32 bytes, or a log matching all (>=1) predicates")
+	rec.AddRule("(a) generated definitions (every operator, topic offsets 0-3, static and dynamic data references, offsets up to 2^32-1 incl. k*2^w+4+j (w=27..31: positions that wrap onto existing words in narrow arithmetic), 0-4 predicates (one definition in eight: 2-4 topic BytesEq pins in a generated order), integers 0/1/2^256-1/2^256/random, byte arguments of length 0/1/31/32/33/64/70; invalid variants labelled, among them offsets 2^32.. 2^58+-, 2^59+-, 2^62, 2^63, 2^64-1: whatever Validate admits is matched) crossed with logs built relative to the definition (0-4 topics, head/tail ABI layout aimed at satisfying or just missing each predicate, then hostile edits: truncation around word boundaries, offset/length words set to n-33..n+1, 2^16, 2^31, 2^32, 2^62, 2^63, 2^64-1). Oracles: Validate ok => Unmarshal(Marshal(d)) == d; Validate ok => ToFilterQuery succeeds; Match never panics, allocates <= 64 KiB + 4*(|data|+|args|), equals the reference semantics of docs/event.md whenever every reference lies inside the log; Match => log passes an independent eth_getLogs filter evaluation of ToFilterQuery. non-trivial = dynamic reference pointing outside the data, topic BytesEq whose argument is not 32 bytes, or a log matching all (>=1) predicates")
 	rec.Assume("missing topics and dynamic references that leave the log data are 'not well formed': any yes/no answer is accepted there, only panics/allocation are judged")
 	runRapid(t, N(5000, 300000), c17MatchProp(rec))
 }
@@ -706,8 +708,22 @@ func decoderProperty(data []byte) (ok bool, sig, detail string) {
 	if g.alloc > uint64(256<<10+64*len(data)) {
 		return false, "unmarshal-unbounded-allocation", fmt.Sprintf("UnmarshalBytes allocated %d bytes for %d input bytes", g.alloc, len(data))
 	}
+	// decoding is a function of the bytes: the same bytes presented again (to a fresh receiver, as the trigger
+	// processor does for every block range) get the same verdict and the same definition
+	var again svc.EventTriggerDefinition
+	var err2 error
+	g = guardedCall(func() { err2 = again.UnmarshalBytes(data) })
+	if g.panicked != nil {
+		return false, "unmarshal-panic", fmt.Sprintf("the second UnmarshalBytes of the same bytes panicked: %v on %x", g.panicked, data)
+	}
+	if (err == nil) != (err2 == nil) {
+		return false, "decoder-verdict-depends-on-history", fmt.Sprintf("bytes %x: first decode says %v, second decode of the same bytes says %v", data, err, err2)
+	}
 	if err != nil {
 		return true, "", "rejected"
+	}
+	if df := cmp.Diff(d, again, defCmp...); df != "" {
+		return false, "decoder-verdict-depends-on-history", fmt.Sprintf("bytes %x decode to different definitions the first and the second time: %s", data, df)
 	}
 	if verr := d.Validate(); verr != nil {
 		return false, "decoded-definition-invalid", fmt.Sprintf("bytes %x decode but the definition is invalid: %v", data, verr)
@@ -732,7 +748,7 @@ func decoderProperty(data []byte) (ok bool, sig, detail string) {
 
 func TestC17_Decoder(t *testing.T) {
 	rec := recorder("C17")
-	rec.AddRule("(b) decoder: valid encodings mutated at byte level (flip, truncate, append, insert, splice of two encodings, version byte) and random byte strings: UnmarshalBytes never panics, allocates O(|input|); accepted bytes yield a definition that passes Validate, has a filter and is stable under re-encoding")
+	rec.AddRule("(b) decoder: valid encodings mutated at byte level (flip, truncate, append, insert, splice of two encodings, version byte) and random byte strings: UnmarshalBytes never panics, allocates O(|input|); accepted bytes yield a definition that passes Validate, has a filter and is stable under re-encoding; decoding the same bytes a second time gives the same verdict and definition")
 	runRapid(t, N(3000, 100000), func(rt *rapid.T) {
 		var data []byte
 		if rapid.IntRange(0, 9).Draw(rt, "fromValid") > 0 {
